@@ -137,7 +137,24 @@ structure PSys where
 
 def PSys.init : PSys := ⟨Store.empty, true⟩
 
-/-- `PeriodLimit.TakeCtx` (no alignment): `calcExpireSeconds = period`. -/
+/-! ### `calcExpireSeconds`, `Align()` and non-positive arguments
+
+Go's `%` truncates toward zero (`Int.tmod`); `unix % 0` panics (`none`).  `quota`, `period` are Go `int`s that
+nothing validates.  What reaches Redis: `limit = quota`, `window = calcExpireSeconds()`.  In the script
+`current ≥ 1`, so a limit `≤ 0` behaves like 0 (always `OverQuota`), and `EXPIRE key w` with `w ≤ 0` deletes
+the key, so a window `≤ 0` behaves like 0 (every take finds no counter).  The natural-number model below is
+therefore applied to `quota.toNat` and `window.toNat`; the correspondence run checks exactly this on miniredis. -/
+
+/-- the statements of `calcExpireSeconds` this model follows -/
+def calcExpireStmts : List String := [
+  "if h.align {", "now := time.Now()", "_, offset := now.Zone()", "unix := now.Unix() + int64(offset)",
+  "return h.period - int(unix%int64(h.period))", "}", "return h.period"]
+
+/-- `calcExpireSeconds()`; `unix` = local wall-clock second (`now.Unix() + offset`); `none` = run-time panic. -/
+def calcExpireZ (align : Bool) (period unix : Int) : Option Int :=
+  if align then (if period = 0 then none else some (period - Int.tmod unix period)) else some period
+
+/-- `PeriodLimit.TakeCtx`: the window argument is `calcExpireSeconds()` (`period` without `Align()`). -/
 def PSys.take (quota period : Nat) (s : PSys) (key : String) : PSys × (Code × PErr) :=
   if s.up then
     let r := periodScript s.store key quota period
@@ -231,6 +248,28 @@ def tokenScript (fixed : Bool) (c : TCfg) (s : Store) (now requested : Nat) : Op
     | none => none
     | some s2 => some (s2, allowed)
 
+/-! ### tokenscript.lua on arguments nothing validates
+
+`rate`, `burst`, `n` are Go `int`s; `NewTokenLimiter` and `AllowN` accept any value (`rate = 0` panics in the
+constructor: `time.Second/time.Duration(rate)`).  What the script then does, on integers, for keys that have
+not expired: a negative `n` is granted whenever `filled ≥ n` and ADDS `-n` tokens (the stored value may exceed
+`capacity`; the next call caps it again with `math.min`); a negative `rate` makes the bucket lose `|rate|`
+tokens per second; a negative `capacity` never grants a request `n ≥ 0`.  Outside the property's quantifier
+(naturals); modelled only to state exactly what happens, checked line by line against the real code. -/
+
+structure ZBucket where
+  tok : Option Int
+  ts  : Option Int
+  deriving Repr, DecidableEq
+
+/-- `math.max(1, math.floor(capacity/rate*2))` (floor division) -/
+def ttlZ (rate cap : Int) : Int := max 1 (Int.fdiv (2 * cap) rate)
+
+def tokenScriptZ (rate cap now req : Int) (b : ZBucket) : ZBucket × Bool :=
+  let filled := min cap (b.tok.getD cap + max 0 (now - b.ts.getD 0) * rate)
+  let allowed := decide (req ≤ filled)
+  (⟨some (if allowed then filled - req else filled), some now⟩, allowed)
+
 /-! ## the rescue limiter (golang.org/x/time/rate, exact arithmetic) -/
 
 /-- `time.Second / time.Duration(rate)` in ns. -/
@@ -318,6 +357,10 @@ inductive TOp where
   | up
   | pingOk (i : Nat)     -- `waitForRedis`: a ping succeeded ⇒ redisAlive := 1
   | monExit (i : Nat)    -- its deferred func: monitorStarted := false
+  | lateFail (i : Nat)   -- the error path of a request that was in flight reaches `startMonitor` (no new script call)
+  | cancelledAlive (i ns n : Nat)  -- `AllowNCtx` with a cancelled / expired context on an instance with redisAlive = 1:
+                         -- the script call returns the context's error, `return false`, nothing is touched
+                         -- (with redisAlive = 0 `reserveN` never looks at the context: that call is `.allow`)
   deriving Repr, DecidableEq
 
 def Sys.step (fixed : Bool) (c : TCfg) (s : Sys) : TOp → Sys × Option Ev
@@ -333,6 +376,8 @@ def Sys.step (fixed : Bool) (c : TCfg) (s : Sys) : TOp → Sys × Option Ev
       let inst := s.insts i
       if inst.monitor ∧ inst.alive then ({ s with insts := upd s.insts i { inst with monitor := false } }, none)
       else (s, none)
+  | .lateFail i => ({ s with insts := upd s.insts i (s.insts i).startMonitor }, none)
+  | .cancelledAlive _ _ _ => (s, none)
 
 /-- events of a whole run -/
 def Sys.run (fixed : Bool) (c : TCfg) : Sys → List TOp → List Ev
